@@ -74,6 +74,13 @@ def check_dtcwt_grad(cfg, sizes, rnd):
         needs = cfg.get('needs') or [True] * len(inputs)
         needs = (list(needs) + [True] * len(inputs))[:len(inputs)]
         f = lambda *ts: inv((ts[0], list(ts[1:]))).reshape(-1)
+        la = cfg.get('low_absent')
+        if la:
+            # the low-pass is absent (None / torch.tensor([]) / 0-dim): only the band-pass levels are differentiated
+            tok = {'none': None, 'empty': torch.tensor([]), '0dim': torch.zeros([], dtype=torch.float64)}[la]
+            inputs = inputs[1:]
+            needs = [True] * len(inputs)
+            f = lambda *ts: inv((tok, list(ts))).reshape(-1)
     y0 = f(*inputs)
     g = torch.tensor(rs.randn(y0.numel()))
     for k, need in enumerate(needs):
@@ -88,7 +95,10 @@ def check_dtcwt_grad(cfg, sizes, rnd):
             e[k].reshape(-1)[m] = 1.0
             Jt[m] = float((f(*e) * g).sum())
         inp = [t.clone().requires_grad_(bool(nd)) for t, nd in zip(inputs, needs)]
-        gr = torch.autograd.grad((f(*inp) * g).sum(), inp[k], allow_unused=True)[0]
+        try:
+            gr = torch.autograd.grad((f(*inp) * g).sum(), inp[k], allow_unused=True)[0]
+        except RuntimeError as e:
+            return False, 'back-propagation raises: %s (%s)' % (str(e)[:120], cfg)
         if gr is None:
             return False, 'input %d requires grad but receives None (%s)' % (k, cfg)
         ok, det = _close(gr.reshape(-1).numpy(), Jt, 1e-8)
